@@ -47,7 +47,7 @@ for src in MODES:
                 for n in ALL:
                     reg.attrs[n] = b.sym(kind, n)
                 return {'self': m, 'to_mode': b.enum('bardolph.controller.units', 'UnitMode', dst)}
-            c = contract(M, 'Machine._switch_unit_mode', serves=['C14'],
+            c = contract(M, 'Machine._switch_unit_mode', serves=['C14', 'C10'],
                          name='Machine._switch_unit_mode[%s->%s,%s]' % (src, dst, kind))
             c.setup(setup)
             # documented valid ranges
